@@ -134,3 +134,9 @@ Theorem C01_independent_of_other_connections : forall fuel horizon m m' k r,
   exists r' sigma, nth_error (m_links m') k = Some r' /\ mixed_run (r_l r) sigma = Some (r_l r').
 Proof. exact mrun_link_is_an_interleaving. Qed.
 Print Assumptions C01_independent_of_other_connections.
+
+(** the reader goroutine closes the chain's input and nothing else, and waits for nothing (regenerated):
+    end-of-stream reaches the receiver only behind everything sent before the close *)
+Theorem C01_reader_closes_only_its_input : reader_closes_only_its_input = true.
+Proof. reflexivity. Qed.
+Print Assumptions C01_reader_closes_only_its_input.
